@@ -44,3 +44,17 @@ Example C16_example :
    /\ f_log st = [0; 1; 3; 2]) /\
   snd (proc_mains fs 8 st0 [4]) = [FErr (ECyclic 4)] /\ snd (proc_mains fs 8 st0 [6]) = [FErr (EMissing 9)].
 Proof. vm_compute. repeat split; reflexivity. Qed.
+
+(* the recursion over includes ends: with more fuel than there are files (univ lists every existing file) no run
+   ever exhausts it — each nested call has marked one more file as in progress, and a marked file is never entered
+   again (it yields its stored result or the cyclic-include failure). So cycles, self-includes and arbitrarily
+   tangled include graphs end in a result or in EMissing / ECyclic, never in non-termination. *)
+Theorem C16_include_recursion_terminates :
+  forall fs univ fuel ps st' rs,
+    (forall p, fs p <> None -> In p univ) -> length univ < fuel ->
+    proc_mains fs fuel st0 ps = (st', rs) -> ~ In (FErr EFuel) rs.
+Proof.
+  intros fs univ fuel ps st' rs Hu Hb H.
+  exact (proc_mains_fuel_enough fs univ Hu fuel Hb ps st0 st' rs LogInv_st0 H).
+Qed.
+Print Assumptions C16_include_recursion_terminates.
